@@ -46,6 +46,12 @@ type c19Field struct {
 
 func c19Fields(typ string) []c19Field {
 	common := []c19Field{{"\\N", "null"}}
+	// texts that look like the NULL marker and are not it: ordinary text for a VARCHAR, unparsable for the other types
+	near := "bad"
+	if typ == "varchar" {
+		near = "ok"
+	}
+	common = append(common, c19Field{"\\n", near}, c19Field{"\\NN", near})
 	switch typ {
 	case "int":
 		return append(common, c19Field{"7", "ok"}, c19Field{"-3", "ok"}, c19Field{"2147483647", "ok"}, c19Field{"2147483648", "bad"}, c19Field{"abc", "bad"}, c19Field{"", "bad"},
